@@ -16,7 +16,7 @@ TECHNIQUE = "differential oracle: DSL-built tree vs plain Python arithmetic on t
 RULE = ("depth-2: every (outer op, operand position, inner op) over + - * / ** % neg, 6 comparisons, If/And/Or/Not, "
         "min max abs sqrt exp sin cos tan arctan round and 7 array aggregates, x4 leaf-kind rotations (constant, converter, stock, python "
         "float left/right, time()); deeper: seeded random typed trees of depth 3-5. Each tree runs in 2 contexts "
-        "(converter; stock equation through one Euler step). Plus 25 forms in which an arrayed expression (negated, scaled, summed) stands where a scalar function, a power, a comparison or an If branch expects a single value: each must be rejected. distinct_nontrivial = distinct (outer,pos,inner) triples "
+        "(converter; stock equation through one Euler step). Plus power towers over negative bases and % with operands of opposite sign. Plus comparisons of function values used as numbers ((f(x) > y) + (f(x) > y) etc. for 7 functions). Plus 25 forms in which an arrayed expression (negated, scaled, summed) stands where a scalar function, a power, a comparison or an If branch expects a single value: each must be rejected. distinct_nontrivial = distinct (outer,pos,inner) triples "
         "(or tree digests for deep trees) whose value changes when compound operands are pasted without parentheses.")
 ASSUMPTIONS = ["Python semantics for and/or/not, bool-as-int and % are 'ordinary arithmetic'",
                "trees whose reference value is non-finite, complex, out of 1e-9..1e12 or within 1e-6 of a discontinuity are dropped (counted)",
@@ -43,7 +43,7 @@ def shapes():
     s.append((("and",), ["b", "b"], "b"))
     s.append((("or",), ["b", "b"], "b"))
     s.append((("not",), ["b"], "b"))
-    for f in ("min", "max"):
+    for f in ("min", "max", "sinwave", "coswave"):
         s.append((("fn", f), ["n", "n"], "n"))
     for f in ("abs", "sqrt", "exp", "sin", "cos", "tan", "arctan"):
         s.append((("fn", f), ["n"], "n"))
@@ -135,8 +135,40 @@ ARRAY_AS_SCALAR = ["F.abs(-A)", "F.max(2.0*A, 0.0)", "F.min(x, -A)", "F.If(x > 1
                    "F.max(M*2.0, x)", "F.abs(-M)", "x ** (2.0*A)", "F.sin(-A)", "F.If(A > 1.0, x, x)", "F.abs(A/2.0)", "F.max(-A, -A)"]
 
 
+def bool_arith_cases():
+    """Comparisons whose operands are function calls, used as numbers (True counts as 1): (f(x) > y) + (f(x) > y), (..) - (..), (..) * 3"""
+    cases = []
+    A, Bc, Cc = ["ref", "c3"], ["ref", "c2"], ["num", 0.25]
+    for f in ("exp", "sin", "cos", "tan", "arctan", "sqrt", "abs"):
+        fx = ["fn", f, A]
+        c_true, c_false = ["cmp", ">", fx, ["num", -50.0]], ["cmp", "<", fx, ["num", -50.0]]
+        c_mixed = ["cmp", ">", fx, Cc]
+        for op in ("+", "-", "*"):
+            for (l, r) in ((c_true, c_true), (c_true, c_false), (c_mixed, c_true)):
+                cases.append(dict(kind="d2", key="bool-arith/%s/%s" % (f, op), tree=["bin", op, l, r], vals=0))
+        cases.append(dict(kind="d2", key="bool-arith/%s/scaled" % f, tree=["bin", "*", c_true, ["num", 3.0]], vals=1))
+        cases.append(dict(kind="d2", key="bool-arith/%s/sum3" % f, tree=["bin", "+", ["bin", "+", c_true, c_mixed], c_true], vals=1))
+    return cases
+
+
+def power_tower_cases():
+    """(x ** p) ** q with a base that is negative (or whose sign matters): not the same as x ** (p*q)"""
+    cases = []
+    neg_bases = [["bin", "-", ["ref", "c2"], ["ref", "c1"]], ["neg", ["ref", "c1"]], ["num", -3.0], ["bin", "*", ["num", -1.5], ["ref", "c3"]], ["bin", "-", ["num", 1.0], ["ref", "v1"]]]
+    for nb in neg_bases:
+        for (p_, q_) in ((2.0, 0.5), (4.0, 0.25), (2.0, 1.5), (2.0, 2.0)):
+            tower = ["bin", "**", ["bin", "**", nb, ["num", p_]], ["num", q_]]
+            cases.append(dict(kind="d2", key="power-tower/%g/%g" % (p_, q_), tree=tower, vals=0))
+            cases.append(dict(kind="d2", key="power-tower-in-diff/%g/%g" % (p_, q_), tree=["bin", "-", ["ref", "c1"], tower], vals=1))
+    # % with operands of opposite sign (the remainder takes the sign of the divisor)
+    for (l, r) in ((["bin", "-", ["ref", "c2"], ["ref", "c1"]], ["num", 3.0]), (["ref", "c1"], ["num", -3.0]), (["neg", ["ref", "v1"]], ["ref", "c2"]), (["bin", "-", ["time"], ["num", 4.0]], ["num", 3.0])):
+        cases.append(dict(kind="d2", key="mod-opposite-signs", tree=["bin", "%", l, r], vals=0))
+        cases.append(dict(kind="d2", key="mod-opposite-signs-in-if", tree=["if", ["cmp", "==", ["bin", "%", l, r], ["num", 2.0]], ["ref", "c1"], ["ref", "c2"]], vals=0))
+    return cases
+
+
 def gen_cases(tier, seed):
-    cases = depth2_cases()
+    cases = depth2_cases() + bool_arith_cases() + power_tower_cases()
     # an arrayed expression where a single value is expected has no value: it must be rejected (at definition or at evaluation)
     for form in ARRAY_AS_SCALAR:
         for ctx in ("converter", "stock"):
@@ -227,6 +259,7 @@ def run_case(case):
     vals = VALSETS[case["vals"]]
     tree = case["tree"]
     env = X.Env(vals, t=T0, vecs=VECS)
+    env.t0 = T0         # sinwave / coswave count time from the model's start
     counters = {}
     try:
         ref = X.ev(tree, env)
@@ -239,7 +272,7 @@ def run_case(case):
     # does grouping matter for this tree?
     sensitive = False
     try:
-        nv = eval(naive_python(tree, X.Env(vals, t=T0, vecs=VECS)), {"math": math})
+        nv = eval(naive_python(tree, X.Env(vals, t=T0, vecs=VECS)), {"math": math, "sinwave": lambda a_, p_: a_ * math.sin(2 * math.pi * (T0 - T0) / p_), "coswave": lambda a_, p_: a_ * math.cos(2 * math.pi * (T0 - T0) / p_)})
         sensitive = not X.close(nv, ref)
     except Exception:
         sensitive = True
